@@ -10,24 +10,24 @@ props = {json.loads(l)['id']: json.loads(l) for l in open(V + '/properties.jsonl
 
 TEXT = {
  'C01': 'Chip invariant (bankroll = stack + wager + pot, non-negativity, round pot = wagers) proved as an inductive invariant of the Lean engine model over all configurations, operation sequences and Int amounts; pots/closing identities via the pot and settlement theorems; model tied to the Go code by differential runs on every check.',
- 'C02': 'Settlement theorems over all contribution/fold/score vectors on the Lean model of pot.LevelList + settlement.Result (zero-sum, folded wins nothing, bounds, per-level winners, tie fairness after the round-robin repair), tied to the Go code by 10^5 random vectors per run plus every closed hand of the engine run.',
+ 'C02': 'For real play the hypotheses of the layer theorems are discharged (in every reachable state a non-folded player covers every contribution: C02Play), a layer paid only by folded players is refunded. Settlement theorems over all contribution/fold/score vectors on the Lean model of pot.LevelList + settlement.Result (zero-sum, folded wins nothing, bounds, per-level winners, tie fairness after the round-robin repair), tied to the Go code by 10^5 random vectors per run plus every closed hand of the engine run.',
  'C03': 'score order = poker order for all valid five-card hands in any card order, both ranking tables: kernel-evaluated normal form over all 7462 rank/flush classes lifted by lemmas; constants regenerated from the Go source on every run; the finite domain is also compared exhaustively between Go and the model.',
- 'C04': 'one actor / first to act / clockwise / refusals without effect proved for every reachable state of the engine model, the first actor without the open-round hypothesis (C05Opens); malformed stream (every other seat x every action, out-of-phase operations) compared between Go and model.',
+ 'C04': 'Every opening of a betting round and who is first to act there (C04Openings); at the wrappers of the table\'s driver of a hand (table/game.go, modelled, translated and run against the real code) a call that reaches the backend comes from the player to act (C06Driver.wrapper_acts_for_caller). one actor / first to act / clockwise / refusals without effect proved for every reachable state of the engine model, the first actor without the open-round hypothesis (C05Opens); malformed stream (every other seat x every action, out-of-phase operations) compared between Go and model.',
  'C05': 'round-closing theorems on the engine model with ghost history, and exactly when a betting round opens (preflop iff somebody keeps chips after the forced bets, later streets iff two stacks); differential runs with the acted/fold/stack fields masked in.',
- 'C06': 'wait points, expected step succeeds, street order, termination measure and closed-is-final on the engine model.',
+ 'C06': 'The driver the statement speaks of is modelled too (table/game.go: Model/TableDriver.lean): every table-level history is an engine history (refinement), the driver\'s own calls are never refused, progress and termination at table level (C06Driver); regenerated from game.go on every run (group Drv) and run against the real table.game on the real backend (component drv). wait points, expected step succeeds, street order, termination measure and closed-is-final on the engine model.',
  'C07': 'resume equivalence: every operation commutes with the JSON round trip of the state (model level, all states); game construction / LoadState / every method of table.NativeBackend translated from the source and proved to be clone-in, rebuild, the one operation, clone-out for all interpretations of the primitives; the real JSON backend is run as a twin on every history and its argument is byte-compared around every call.',
- 'C08': 'seat layout theorems over all seat histories, newcomer timing with any number of hands between join and sit-in (partial where the unchanged tree violates the statement: known findings D4, D9, D10 with kernel-checked witnesses); the hand-off of those positions to the engine by table/ (setupPosition, startGame, bankroll write-back) is modelled too (Model/Table.lean), run against the real table code through verif hooks and monitored.',
- 'C09': 'conservation, hand-out once and counter agreement as invariants of regulator x environment on the wide domain (any setting with max >= 1, any status order) with totality, also with late release reports and with re-entries of eliminated names; refusals without effect for every state.',
- 'C10': 'enumeration = admissible selections (kernel table for Gosper\'s hack on the whole reachable domain), head of any sorted permutation is a maximum, reported category/cards/strength describe one hand, recomputed on every street, showdown uses the published strength — over all histories.',
+ 'C08': 'newcomer timing from any arrival state, with other players\' operations in between and for Join(-1) (C08Arrival); seat layout theorems over all seat histories, newcomer timing with any number of hands between join and sit-in (partial where the unchanged tree violates the statement: known findings D4, D9, D10 with kernel-checked witnesses); the hand-off of those positions to the engine by table/ (setupPosition, startGame, bankroll write-back) is modelled too (Model/Table.lean), run against the real table code through verif hooks and monitored.',
+ 'C09': 'exactly one table, the re-entry forms of every theorem (C09One); conservation, hand-out once and counter agreement as invariants of regulator x environment on the wide domain (any setting with max >= 1, any status order) with totality, also with late release reports and with re-entries of eliminated names; refusals without effect for every state.',
+ 'C10': 'the published hand uses exactly the required number of hole cards (C10Published); enumeration = admissible selections (kernel table for Gosper\'s hack on the whole reachable domain), head of any sorted permutation is a maximum, reported category/cards/strength describe one hand, recomputed on every street, showdown uses the published strength — over all histories.',
  'C11': 'offered-action table and action effects proved for every reachable betting state.',
- 'C12': 'minimum-raise rule and amount safety for every Int amount on every reachable state.',
+ 'C12': 'what a raise does on a pot-limit table, refusal exactly when raise is not offered (C12PotLimit); minimum-raise rule and amount safety for every Int amount on every reachable state.',
  'C13': 'forced bets characterised for every accepted configuration.',
- 'C14': 'dealt cards = consumed top of the deck as an invariant over all histories; shuffle as arbitrary swap sequence is a permutation.',
+ 'C14': 'cards once dealt never change for any deck contents (C14AnyDeck); dealt cards = consumed top of the deck as an invariant over all histories; shuffle as arbitrary swap sequence is a permutation.',
  'C15': 'redaction theorems over all states; struct fields regenerated by reflection must all be classified.',
- 'C16': 'pot partition theorems over all contribution vectors and insertion orders.',
+ 'C16': 'eligible sets nested as sets, per-owner slices: no chip in a pot above what its owner paid (C16Nested); pot partition theorems over all contribution vectors and insertion orders.',
  'C17': 'button movement theorems over all seat histories; nextDealer and its loops translated from the source on every run and proved equal to the model; save / restore (ApplyStates) is the identity.',
  'C18': 'seat occupancy theorems and absence of panics over all sequential histories, also at the entry points of the wrappers table.Table and match.Table (sheet and seat map agree: C08T.reachable_invariant); concurrent Join decided by a stress run checked for linearisability.',
- 'C19': 'capacity, no table before start / before min, initial tables >= min as invariants of regulator x environment (phases moving forward; kernel-checked witness that capacity fails after a return to pending); the same theorems on the asynchronous system in which release reports arrive late (C19Async).',
+ 'C19': 'callback / initial-minimum clauses without the forward-only hypothesis, top-up by returned players <= max (C09One); capacity, no table before start / before min, initial tables >= min as invariants of regulator x environment (phases moving forward; kernel-checked witness that capacity fails after a return to pending); the same theorems on the asynchronous system in which release reports arrive late (C19Async).',
  'C20': 'break returns all, directed moves, fixed point (also on the asynchronous system with late release reports: C20Async; there the sweep bound holds up to the cost of late reports, the unconditional form is stated and not proved), and the sweep bound itself: at most 2(e+1)max + 5T + 2e + 2(max+3)u + 1 asking syncs (two potentials over regulator x environment); kernel-checked witness that no T + C bound exists.',
 }
 
@@ -49,7 +49,7 @@ m = dict(
     setup_cmd='./setup.sh',
     hooks=dict(guard='verif', enable='go build -tags verif (the harness module in /verif/harness replaces github.com/weedbox/pokerface by /repo)',
                baseline_off_cmd='cd /repo && GOFLAGS=-mod=mod GOPROXY=off GOSUMDB=off go test -vet=off -count=1 ./combination/ ./pot/ ./regulator/ ./settlement/ ./testcases/',
-               source_commits=['1240968', 'dbd1a42'], add_only=True),
+               source_commits=['1240968', 'dbd1a42', '011be18'], add_only=True),
     engines=[dict(name='lean4-model+go-harness', path='/verif/lean, /verif/harness, /verif/check',
                   serves_properties=sorted(chk.PROPS), kind_free_text='machine-checked proof in Lean 4 over a hand-written model, correspondence check by differential line protocol')],
     checks=checks,
